@@ -195,6 +195,10 @@ def rand_case(rng, max_dim, empty_axis=False, all_zero=False, writer=None):
         case['ids_as'] = rng.choice(ID_CONTAINERS)      # how the caller handed the ids to the constructor
     if rng.random() < 0.4:
         case['gen2'] = True           # history: write, load, write the loaded table again, load
+        if rng.random() < 0.4:        # ... with group metadata added to the loaded table in between
+            case['gen2_add'] = {ax: dict(rng.choice([[('rev', ['text', 'v2'])], [('tree', ['newick', '(p:1,q:2);'])],
+                                                     [('rev', ['', 'ab']), ('more', ['text', 'xyz'])], [('e', ['text', ''])]]))
+                                for ax in rng.choice([['observation'], ['sample'], ['observation', 'sample']])}
     return case
 
 
